@@ -197,7 +197,13 @@ def layer_closed_forms(ctx):
         if n > 200 and kind not in ('list', 'gen', 'iter'):
             continue
         t = T[wi % 2]
-        out = t(xs=KINDS[kind](n)).split(';')[:-1]
+        try:
+            out = t(xs=KINDS[kind](n)).split(';')[:-1]
+        except Exception as e:
+            total += 1
+            ctx.violation('repeat-raised:' + type(e).__name__, 'kind %s length %d: rendering raised %s: %s' % (
+                kind, n, type(e).__name__, str(e).split('\n')[0][:120]), {'kind': 'closed', 'iter': kind, 'n': n})
+            continue
         items = items_of(kind, n)
         ctx.cover('iterable-kind', kind)
         if len(out) != n:
